@@ -20,7 +20,8 @@ VARS = ["VAR_A", "VAR_B"]
 TRAINERS = ["TRAINER_A", "TRAINER_B"]
 
 # AutoVar configuration used by the generators: one fixed-name command, one positional.
-AUTOVARS = {"random": ("VAR_RESULT", None), "specialvar": ("", 0), "checkitem": ("VAR_RESULT", None)}
+AUTOVARS = {"random": ("VAR_RESULT", None), "specialvar": ("", 0), "checkitem": ("VAR_RESULT", None),
+            "avtext": ("VAR_RESULT", None)}
 
 def base_cfg(**kw):
     c = Cfg(autovars=AUTOVARS)
